@@ -5,9 +5,9 @@
    splitting into chained sub-programs preserves the verdict.
    Layer 2 (NOT a theorem; see props/C11.py): that the assembled eBPF instructions implement the IR is established
    per generated program by running the real instruction words in Bpf.v on probe packets. *)
-From Coq Require Import List NArith Bool.
+From Coq Require Import List NArith ZArith Bool.
 From Verif.Common Require Import Packet PolicyRef.
-From Verif.C11 Require Import Bpf Model Spec Proofs ProofsRule ProofsTiers ProofsMain ProofsSplit ProofsSets ProofsCut ProofsPinned ProofsFinal.
+From Verif.C11 Require Import Bpf Model Spec Proofs ProofsRule ProofsTiers ProofsMain ProofsSplit ProofsSets ProofsCut ProofsPinned ProofsFinal Emit EmitProofs.
 Import ListNotations.
 Open Scope N_scope.
 
@@ -130,3 +130,37 @@ Theorem c11_profile_pass_pinned_refuted :
     /\ model_verdict pinned_variant V4 r no_sets ps = Some (RDeny, false).
 Proof. exact c11_profile_pass_pinned_refuted_pf. Qed.
 Print Assumptions c11_profile_pass_pinned_refuted.
+
+(* ------------------------------------------------------------------ instruction level (Emit.v) *)
+(* For the IR tests that need neither an IP-set lookup nor a CIDR compare, the instruction templates of the Gallina
+   emitters (compared word for word with the real builder's output by check_case on every case inside that fragment)
+   are run by Bpf.step on a machine whose state-map value encodes the packet state: the jump is taken exactly when
+   the IR test fires, and only R1 changes.  (The remaining emitters - CIDR compare, IP-set key set-up, ICMP type+code,
+   host flags, log flag, footer - are tied to the IR per generated program by execution only: see the report.) *)
+Theorem c11_emit_proto_exact : forall e p v v6 bs ps pc ms sense n joff,
+  body_inv v6 ps ms -> (ps_proto ps < 256)%N -> (n < 256)%N ->
+  tnth p pc = Some (R OP_LDX8 1 9 OFFS_PROTO 0) ->
+  tnth p (pc + 1) = Some (R (jcc sense) 1 0 joff (Z.of_N n)) ->
+  exists ms', step e p pc ms = SNext (pc + 1) ms'
+    /\ step e p (pc + 1) ms' = SNext (if Bool.eqb (eval_cond v bs ps (CProto n)) sense then pc + 2 + joff else pc + 2)%Z ms'
+    /\ body_inv v6 ps ms'.
+Proof. exact emit_proto_exact. Qed.
+Print Assumptions c11_emit_proto_exact.
+
+Theorem c11_emit_icmp_type_exact : forall e p v v6 bs ps pc ms sense t joff,
+  body_inv v6 ps ms -> (ps_icmp_type ps < 256)%N -> (t < 256)%N ->
+  tnth p pc = Some (R OP_LDX8 1 9 OFFS_ICMP 0) ->
+  tnth p (pc + 1) = Some (R (jcc sense) 1 0 joff (Z.of_N t)) ->
+  exists ms', step e p pc ms = SNext (pc + 1) ms'
+    /\ step e p (pc + 1) ms' = SNext (if Bool.eqb (eval_cond v bs ps (CIcmpType t)) sense then pc + 2 + joff else pc + 2)%Z ms'.
+Proof. exact emit_icmp_type_exact. Qed.
+Print Assumptions c11_emit_icmp_type_exact.
+
+Theorem c11_emit_single_port_exact : forall e p v v6 bs ps pc ms lg port joff,
+  body_inv v6 ps ms -> (leg_port ps lg < 65536)%N -> (port < 65536)%N ->
+  tnth p pc = Some (R OP_LDX16 1 9 (port_off lg) 0) ->
+  tnth p (pc + 1) = Some (R OP_JEQIMM 1 0 joff (Z.of_N port)) ->
+  exists ms', step e p pc ms = SNext (pc + 1) ms'
+    /\ step e p (pc + 1) ms' = SNext (if eval_cond v bs ps (CPort lg (port, port)) then pc + 2 + joff else pc + 2)%Z ms'.
+Proof. exact emit_single_port_exact. Qed.
+Print Assumptions c11_emit_single_port_exact.
